@@ -357,7 +357,7 @@ func checkCodec(c *core.Check, which string) {
 	perPkg := 60
 	nSeeds, nDocs := 10, 6
 	if thorough {
-		nSeeds, nDocs = 60, 24
+		nSeeds, nDocs = 200, 60
 	}
 	specs := map[string]*aspec.ASpec{}
 	var groups []driver.Group
